@@ -82,10 +82,14 @@ type decision struct {
 	from, to  int
 }
 
-// Decisions splits a cycle's calls into committed eviction decisions: a run of Evicts naming one preemptor,
-// followed by the placements that belong to the same Statement.Commit - pods of the preemptor and pods of the
-// victims' workloads that are (re-)placed. A placement of any other workload starts something else (e.g. a later
-// decision that needs no victims because capacity is already releasing).
+// Decisions splits a cycle's calls into committed eviction decisions. Every call carries the number of the
+// Statement.Commit that emitted it (stamped by the engine through the statement hook), so a decision is exactly the
+// calls of one commit that contains an Evict naming a preemptor: the victims, the (re-)placements of the victims'
+// workloads and the placements of the preemptor. Placements made by a later commit - e.g. the preempt action
+// nominating one more pod of the same workload onto capacity that is already releasing - are not part of it.
+// Calls without a commit number (records of older replay traces are re-executed, so this is only a fallback)
+// are grouped by the old heuristic: a run of Evicts naming one preemptor followed by placements of the involved
+// workloads.
 func Decisions(calls []Call, workloadOf func(pod string) string) []decision {
 	var out []decision
 	i := 0
@@ -95,13 +99,27 @@ func Decisions(calls []Call, workloadOf func(pod string) string) []decision {
 			continue
 		}
 		d := decision{preemptor: calls[i].Preemptor, action: calls[i].Action, from: i}
+		commit := calls[i].Commit
+		if commit != 0 {
+			// back up to the first call of this commit (a commit may place before it evicts) and run to its last
+			for d.from > 0 && calls[d.from-1].Commit == commit {
+				d.from--
+			}
+			j := i
+			for j < len(calls) && calls[j].Commit == commit {
+				j++
+			}
+			d.to = j
+			out = append(out, d)
+			i = j
+			continue
+		}
 		victimWorkloads := map[string]bool{}
 		j := i
 		for j < len(calls) && calls[j].Kind == "evict" && calls[j].Preemptor == d.preemptor && calls[j].Action == d.action {
 			victimWorkloads[workloadOf(calls[j].Pod)] = true
 			j++
 		}
-		// the same commit re-allocates the victims' workloads (moved victims, pending siblings) and places the preemptor
 		for j < len(calls) && calls[j].Kind != "evict" && (victimWorkloads[workloadOf(calls[j].Pod)] || workloadOf(calls[j].Pod) == d.preemptor) {
 			j++
 		}
